@@ -74,6 +74,21 @@ var properties = map[string]*Property{
 		{"VerifC10Conc", 0, 1, []string{"crash while the plan is durably Running", "uninterrupted outcome Failed"}}},
 		[]string{"as C09; the outcome-equality clause is asserted with one verdict variable per action shared by both processes, on shapes without continuous checks",
 			"constructing a Workstream (coercion.New -> execute.New -> recover) is C11's harness; here States.Recovery is entered directly with the plan a vault Read returns"}),
+	"C11": {
+		ID: "C11",
+		Runs: []Run{
+			{Dir: "c11", Pkg: "internal/execute", Fn: "VerifC11Filter", Needs: []string{"stale Running plan", "live Running plan", "boundary age resumed", "non-Running plan left alone"}},
+			{Dir: "c11", Pkg: "internal/execute", Fn: "VerifC11New", Needs: []string{"recovery disabled", "recovery enabled"}},
+		},
+		Assumptions: append([]string{
+			"store content: 1..2 plans (1 block, 1 sequence, 1 action each) with any 64-bit status on the plan and on the action, any instant (or the zero time) as plan start and as a nested end time",
+			"clock readings and stored instants lie in [0, 2^62) ns (years 1970..2116), 0 <= maximum age < 2^61 ns, so that last+max does not wrap",
+			"'most recent recorded activity' is the engine's definition: the maximum State.Start/End over all objects of the plan (attempt timestamps are not part of it)",
+			"model vault whose Search implements the specified status filter; the harness additionally asserts that the filter passed is exactly ByStatus=[Running]",
+			"VerifC11Filter drives Plans.recover (real recover state machine and runPlan) with a recording runner; VerifC11New runs the real execute.New with the real engine behind it",
+		}, commonAssumptions...),
+		OutsideClaim: []string{"more than 2 (quick) / 3 (thorough) plans in the store; Search itself returning every Running plan is C15's obligation"},
+	},
 }
 
 type eRun struct {
